@@ -57,7 +57,10 @@ def anchor_paths(F):
                         and "Showdown" in g.local_ty(0)}
     conv = _impl_method(F, "std::convert::From<[card::card::Card; 7]>", MADE_HAND, "from")
     if conv is not None:
-        # flush finder and the two hash functions
+        # flush finder and the two hash functions (of the body that does the work: `From<[Card; 7]>` may only forward to a
+        # by-reference impl)
+        from . import idioms as I
+        conv = I.resolve_forwarding(F, conv)
         anchors |= {g.path for g in _callees(F, conv)}
     parse = _impl_method(F, "std::str::FromStr", TOKEN, "from_str")
     if parse is not None:
@@ -135,6 +138,27 @@ def _reborrow_root(nd, op):
     return None
 
 
+def accessor_like(F, f):
+    """a public inherent method that only forwards (part of) `self` to at most three std calls, without a branch or a loop
+    (`pub fn probability(&self, k) -> Option<f32> { self.0.get(k).copied() }`): spliced into its crate-local callers like a
+    private helper (the method itself stays).  The reference tree has none."""
+    if f.kind != "AssocFn" or f.d.get("vis") != "pub" or not f.impl or f.impl.get("trait"):
+        return False
+    if f.arg_count < 1 or not f.local_ty(1).lstrip("&").replace("mut ", "").startswith(f.impl["self_ty"].split("<")[0]):
+        return False
+    if f.cfg.has_loops():
+        return False
+    calls = [(bi, t) for bi, t in f.calls() if bi in f.cfg.reachable]
+    if not calls or len(calls) > 3:
+        return False
+    if any(b["term"]["k"] == "switch" for i, b in enumerate(f.blocks) if i in f.cfg.reachable):
+        return False
+    for _bi, t in calls:
+        if "indirect" in t["callee"] or (t["callee"].get("resolved") or t["callee"].get("path")) in F.fns:
+            return False
+    return True
+
+
 def helper_paths(F, closures_only=False):
     """crate-local functions that may be spliced: restricted visibility, not an anchor, not (mutually) recursive"""
     if closures_only:
@@ -143,7 +167,7 @@ def helper_paths(F, closures_only=False):
     else:
         anchors = anchor_paths(F)
         cand = {p for p, f in F.fns.items()
-                if f.kind in ("Fn", "AssocFn") and f.d.get("vis") == "restricted" and p not in anchors
+                if f.kind in ("Fn", "AssocFn") and (f.d.get("vis") == "restricted" or accessor_like(F, f)) and p not in anchors
                 and len(f.blocks) <= MAX_BLOCKS}
     # drop recursive helpers (direct or through other helpers)
     def callees(p):
